@@ -48,3 +48,427 @@ def desc_len(fid, meta, first):
     if first and meta and meta != "-":
         s += ',"metadata":%s' % meta
     return len(s + "}") + 1
+
+
+# ---------------------------------------------------------------- build
+def build(ctx):
+    ok, log, failed = C.lake_build(["acq_storage"])
+    if not ok:
+        ctx.corr_broken.append({"what": "model driver acq_storage does not build", "log": log[-2000:]})
+        return None, None
+    exe, log = C.compile_harness("h_storage_io_%s" % ctx.prop.lower(), HARNESS_SRC, extra_flags=["-DNO_UNIT_TESTS"])
+    if not exe:
+        ctx.corr_broken.append({"what": "harness h_storage_io does not compile against the repository", "log": log[-3000:]})
+        return None, None
+    rc, out, err = C.sh([exe, "--layout"], timeout=20, env=C.SAN_ENV)
+    got = dict((k, int(v)) for k, v in re.findall(r"(\w+)=(\d+)", out))
+    if got != LAYOUT:
+        ctx.corr_broken.append({"what": "struct VideoFrame layout differs from the one the generator and the model assume",
+                                "expected": LAYOUT, "got": got})
+        return None, None
+    return exe, C.driver_path("acq_storage")
+
+
+# ---------------------------------------------------------------- cases
+class Case:
+    """one device life: kind, fault tokens, operations (strings in the line protocol, without `new`/`faults`)"""
+
+    def __init__(self, kind, ops, faults=(), tag=""):
+        self.kind, self.ops, self.faults, self.tag = kind, list(ops), list(faults), tag
+
+    def lines(self):
+        out = ["new %s" % self.kind]
+        if self.faults:
+            out.append("faults " + " ".join(self.faults))
+        return out + self.ops
+
+    def with_ops(self, ops):
+        return Case(self.kind, ops, self.faults, self.tag)
+
+
+def append_op(kind, frames, meta):
+    """frames: list of (nimg, fid).  For the TIFF kinds the token L=a/b,... gives, per frame, the size of the string
+    section if the frame is the first of its file (the description then carries the metadata) / otherwise."""
+    if not frames:
+        return "append -"
+    toks = [frame_bytes(n, fid).hex() for n, fid in frames]
+    if kind in ("tiff", "sxs"):
+        toks.append("L=" + ",".join("%d/%d" % (desc_len(fid, meta, True), desc_len(fid, meta, False)) for n, fid in frames))
+    return "append " + " ".join(toks)
+
+
+LABEL = re.compile(r" ~(\S+)$")
+PW_OFF = re.compile(r"pwrite\(([^,]+),\d+,")
+
+
+def canon(line, kind):
+    line = line.rstrip()
+    if kind != "raw":
+        line = PW_OFF.sub(r"pwrite(\1,*,", line)   # TIFF offsets are property C15's subject
+    return line
+
+
+def split_cases(lines):
+    """split an output stream into per-case line lists (a case starts at a line beginning with 'new ')"""
+    cases, cur = [], None
+    for ln in lines:
+        if ln.startswith("new "):
+            cur = []
+            cases.append(cur)
+        if cur is not None and ln != "":
+            cur.append(ln)
+    return cases
+
+
+def run_batch(exe, drv, cases, stats, timeout=600):
+    """Runs the cases through the real code and the model.  Returns a list of problems
+    (case_index, kind, detail) with kind in {'oracle','crash','timeout','diff','model-crash'}."""
+    script = "\n".join("\n".join(c.lines()) for c in cases) + "\n"
+    tmp = os.path.join(C.BUILD, "tmp-storage")
+    os.makedirs(tmp, exist_ok=True)
+    rc_i, impl, err_i = C.run_lines(exe, script, timeout=timeout, args=[tmp, "10000"])
+    rc_m, model, err_m = C.run_lines(drv, script, timeout=timeout)
+    problems = []
+    if rc_m != 0:
+        problems.append((0, "model-crash", err_m[-800:]))
+    if rc_i != 0:
+        problems.append((0, "harness-failed", "exit %d: %s" % (rc_i, err_i[-800:])))
+    ic, mc = split_cases(impl), split_cases(model)
+    for ci, c in enumerate(cases):
+        il = ic[ci] if ci < len(ic) else []
+        ml = mc[ci] if ci < len(mc) else []
+        ops_i, crashed = [], None
+        oracles = []
+        for ln in il:
+            if ln.startswith("ORACLE "):
+                oracles.append((len(ops_i) - 1, ln))
+            elif ln.startswith("CRASH") or ln.startswith("TIMEOUT"):
+                crashed = ln
+            else:
+                ops_i.append(canon(ln, c.kind))
+        ops_m, labels = [], []
+        for ln in ml:
+            m = LABEL.search(ln)
+            labels.append(m.group(1).split("+") if m else [])
+            ops_m.append(canon(LABEL.sub("", ln), c.kind))
+        for lno, msg in oracles:
+            problems.append((ci, "oracle", {"line": lno, "msg": msg, "op": ops_i[lno] if 0 <= lno < len(ops_i) else ""}))
+        if crashed:
+            problems.append((ci, "timeout" if crashed.startswith("TIMEOUT") else "crash",
+                             {"line": len(ops_i), "msg": crashed, "last": ops_i[-1] if ops_i else ""}))
+        else:
+            d = C.first_diff(list(ops_i), list(ops_m))
+            if d is not None:
+                problems.append((ci, "diff", {"line": d, "impl": ops_i[d] if d < len(ops_i) else "<eof>",
+                                              "model": ops_m[d] if d < len(ops_m) else "<eof>"}))
+            else:
+                stats["validated"] += 1
+        flat = set(l for ls in labels for l in ls)
+        for ls in labels:
+            for l in ls:
+                stats["branches"][l] = stats["branches"].get(l, 0) + 1
+        stats["evaluations"] += 1
+        stats["ops"] += len(ops_m)
+        stats["labels_of_case"].append(flat)
+    return problems
+
+
+def new_stats():
+    return {"branches": {}, "evaluations": 0, "ops": 0, "validated": 0, "labels_of_case": []}
+
+
+def oracle_kind(msg):
+    p = msg.split()
+    return p[1] if len(p) > 1 else msg
+
+
+def single_problem(exe, drv, case, want):
+    """does `case` alone still show a problem for which want(kind, detail) is true?"""
+    st = new_stats()
+    for _, k, det in run_batch(exe, drv, [case], st, timeout=60):
+        if want(k, det):
+            return True
+    return False
+
+
+def minimise(exe, drv, case, want, max_runs=60):
+    ops = C.ddmin(case.ops, lambda xs: single_problem(exe, drv, case.with_ops(xs), want), max_runs=max_runs)
+    small = case.with_ops(ops)
+    # drop fault tokens that are not needed
+    if len(small.faults) > 1:
+        fl = C.ddmin(small.faults, lambda fs: single_problem(exe, drv, Case(small.kind, small.ops, fs), want), max_runs=20)
+        small = Case(small.kind, small.ops, fl, small.tag)
+    return small
+
+
+def report(ctx, exe, drv, batch, problems, my_oracles, crash_is_mine):
+    """turn problems into violations / broken correspondence.  my_oracles: oracle kinds of this property."""
+    for ci, kind, det in problems:
+        case = batch[ci] if ci < len(batch) else None
+        if kind == "oracle":
+            ok = oracle_kind(det["msg"])
+            if ok not in my_oracles:
+                continue
+            sig = "h_storage_io:%s:%s" % (ok, case.kind)
+            if any(v["signature"] == sig for v in ctx.violations):
+                ctx.violation("oracle", sig, "", None)
+                continue
+            small = minimise(exe, drv, case, lambda k, d: k == "oracle" and oracle_kind(d["msg"]) == ok)
+            ctx.violation("oracle", sig, "real %s device violates the property: %s ; minimised history: %s" % (
+                case.kind, det["msg"], " ; ".join(small.lines())), {"harness": "h_storage_io", "script": small.lines()})
+        elif kind in ("crash", "timeout"):
+            if not crash_is_mine:
+                continue
+            sig = "h_storage_io:%s:%s" % (kind, case.kind)
+            if any(v["signature"] == sig for v in ctx.violations):
+                ctx.violation(kind, sig, "", None)
+                continue
+            small = minimise(exe, drv, case, lambda k, d: k == kind, max_runs=40)
+            ctx.violation(kind, sig, "real %s device %s (%s) after `%s` ; minimised history: %s" % (
+                case.kind, "crashes" if kind == "crash" else "hangs", det["msg"], det["last"], " ; ".join(small.lines())),
+                {"harness": "h_storage_io", "script": small.lines()})
+        elif kind == "diff":
+            if len(ctx.corr_broken) < 4:
+                small = case if ctx.corr_broken else minimise(exe, drv, case, lambda k, d: k == "diff", max_runs=40)
+                ctx.corr_broken.append({"what": "storage devices and the Lean model disagree (%s)" % case.kind,
+                                        "script": small.lines(), "at": det})
+            else:
+                ctx.corr_broken.append({"what": "disagreement", "kind": case.kind})
+        else:
+            ctx.corr_broken.append({"what": kind, "detail": det})
+
+
+def replay_file(ctx, path, my_oracles, crash_is_mine):
+    import json
+    obj = json.load(open(path))
+    script = obj.get("replay", obj).get("script") if isinstance(obj.get("replay", obj), dict) else None
+    if not script:
+        print("no script in replay file")
+        return 2
+    exe, drv = build(ctx)
+    if not exe:
+        print("cannot build harness")
+        return 2
+    tmp = os.path.join(C.BUILD, "tmp-storage")
+    os.makedirs(tmp, exist_ok=True)
+    rc, out, err = C.run_lines(exe, "\n".join(script) + "\n", timeout=120, args=[tmp, "10000"])
+    bad = 0
+    for ln in out:
+        print(ln)
+        if ln.startswith("ORACLE ") and oracle_kind(ln) in my_oracles:
+            bad = 1
+        if crash_is_mine and (ln.startswith("CRASH") or ln.startswith("TIMEOUT")):
+            bad = 1
+    if err.strip():
+        print(err[-1500:])
+    print("VIOLATION reproduced" if bad else "no violation on this tree")
+    return bad
+
+
+# ---------------------------------------------------------------- histories
+class Hist:
+    """builder of a history for one device kind; keeps track of frame ids / frames-in-file for the description lengths"""
+
+    def __init__(self, kind, meta="-"):
+        self.kind, self.meta, self.ops = kind, meta, []
+        self.fid = 0
+        self.in_file = 0
+        self.eff = "-"     # metadata the TIFF writers hold (the last valid one that was set)
+
+    def set(self, uri, meta=None):
+        m = self.meta if meta is None else meta
+        if len(m) >= 2 and m[0] == "{" and m[-1] == "}":
+            self.eff = m
+        self.ops.append("set %s %s" % (uri, m))
+        return self
+
+    def start(self):
+        self.ops.append("start")
+        self.in_file = 0
+        return self
+
+    def stop(self):
+        self.ops.append("stop")
+        return self
+
+    def close(self):
+        self.ops.append("close")
+        return self
+
+    def append(self, sizes):
+        frames = []
+        for n in sizes:
+            frames.append((n, self.fid))
+            self.fid += 1
+        self.ops.append(append_op(self.kind, frames, self.eff))
+        self.in_file += len(frames)
+        return self
+
+    def case(self, faults=(), tag=""):
+        return Case(self.kind, self.ops, faults, tag)
+
+
+def base_histories(kind):
+    """the life cycles property C16 names, with at most 3 appends each"""
+    sz = (lambda *xs: list(xs)) if kind == "raw" else (lambda *xs: [8 * ((x + 7) // 8) for x in xs])
+    u1, u2 = ("p:a", "f:b") if kind != "sxs" else ("p:da", "f:db")
+    hs = []
+    hs.append(("open-close", Hist(kind).close()))
+    hs.append(("set-only", Hist(kind).set(u1).close()))
+    hs.append(("set-twice", Hist(kind).set(u1).set(u2).close()))
+    hs.append(("one-acq", Hist(kind).set(u1).start().append(sz(8)).stop().close()))
+    hs.append(("close-running", Hist(kind, '{"a":1}').set(u2).start().append(sz(8, 3)).append(sz(16)).close()))
+    hs.append(("restart", Hist(kind).set(u1).start().stop().start().append(sz(5)).stop().close()))
+    hs.append(("two-acq", Hist(kind, '{"k":[1,2]}').set(u1).start().append(sz(8)).append(sz(0, 24)).stop()
+               .set(u2).start().append(sz(8)).close()))
+    hs.append(("misuse", Hist(kind).start().set(u1).start().start().append(sz(8)).stop().stop().append(sz(8)).close()))
+    hs.append(("bad-meta", Hist(kind, "{x").set(u1).start().set(u1, "-").start().append(sz(8)).close()))
+    return hs
+
+
+CALL = re.compile(r"\b(open|flock|pwrite|close|mkdir)\(")
+
+
+def calls_of(model_case_lines):
+    out = []
+    for ln in model_case_lines:
+        body = LABEL.sub("", ln)
+        out += CALL.findall(body.split(" | ", 1)[1] if " | " in body else "")
+    return out
+
+
+def fault_variants(i, ty):
+    vs = [["%d=F" % i], ["from=%d" % i]]
+    if ty == "pwrite":
+        vs += [["%d=Z" % i], ["%d=S1" % i], ["%d=Z" % i, "%d=Z" % (i + 1), "%d=Z" % (i + 2)], ["%d=S3" % i, "%d=Z" % (i + 1)]]
+    return vs
+
+
+def exhaustive_fault_cases(drv, kinds=("raw", "tiff", "sxs", "trash")):
+    """every fault index x fault kind of every base history of every device kind"""
+    bases = []
+    for k in kinds:
+        for tag, h in base_histories(k):
+            bases.append(h.case(tag="%s/%s" % (k, tag)))
+    script = "\n".join("\n".join(c.lines()) for c in bases) + "\n"
+    rc, out, err = C.run_lines(drv, script, timeout=120)
+    per = split_cases(out)
+    cases = list(bases)
+    for c, lines in zip(bases, per):
+        for i, ty in enumerate(calls_of(lines)):
+            for fv in fault_variants(i, ty):
+                cases.append(Case(c.kind, c.ops, fv, c.tag + "@" + ",".join(fv)))
+    return cases
+
+
+def random_history(rng, kind, max_cycles=3, max_appends=4, reuse_paths=True):
+    meta = rng.choice(["-", "-", '{"a":1}', '{"name":"x","v":[1,2,3]}'])
+    h = Hist(kind, meta)
+    names = []
+    ncyc = rng.randint(1, max_cycles)
+    for c in range(ncyc):
+        r = rng.random()
+        if r < 0.75 or not names:
+            nm = ("d%d" if kind == "sxs" else "n%d") % len(names)
+            if rng.random() < 0.15 and kind != "sxs":
+                nm = rng.choice(["file:x%d", "file%d", "fil%d.e", "file:/".replace("/", "_") + "%d"]) % len(names)
+            names.append(nm)
+            h.set(("f:" if rng.random() < 0.5 else "p:") + nm)
+        elif reuse_paths and r < 0.85:
+            h.set(("f:" if rng.random() < 0.5 else "p:") + rng.choice(names))
+        if rng.random() < 0.93:
+            h.start()
+        for a in range(rng.randint(0, max_appends)):
+            nf = rng.choice([1, 1, 2, 3, 0]) if rng.random() < 0.9 else rng.randint(4, 8)
+            if kind == "raw":
+                sizes = [rng.choice([0, 1, 3, 8, 13, 16, 64, 200, rng.randint(0, 300)]) for _ in range(nf)]
+            else:
+                sizes = [8 * rng.choice([0, 1, 2, 3, 8, 25]) for _ in range(nf)]
+            h.append(sizes)
+        if rng.random() < 0.8:
+            h.stop()
+    h.close()
+    return h
+
+
+def random_faults(rng, ncalls, short_only=False):
+    toks = []
+    n = rng.choice([0, 1, 1, 2, 3, 5]) if not short_only else rng.choice([1, 2, 3, 5, 8])
+    used = set()
+    for _ in range(n):
+        i = rng.randrange(0, max(1, ncalls + 2))
+        if i in used:
+            continue
+        used.add(i)
+        r = rng.random()
+        if short_only:
+            toks.append("%d=%s" % (i, rng.choice(["S1", "S2", "S7", "S50", "S97", "Z", "S%d" % rng.randint(1, 400)])))
+        elif r < 0.4:
+            toks.append("%d=F" % i)
+        elif r < 0.6:
+            toks.append("%d=Z" % i)
+        elif r < 0.9:
+            toks.append("%d=S%d" % (i, rng.choice([1, 2, 5, 17, 100])))
+        else:
+            toks += ["%d=Z" % i, "%d=Z" % (i + 1), "%d=Z" % (i + 2)]
+    if not short_only and rng.random() < 0.2:
+        toks.append("from=%d" % rng.randrange(0, max(1, ncalls + 1)))
+    return toks
+
+
+# ---------------------------------------------------------------- corpus, coverage
+def load_corpus(prop):
+    """corpus/<prop>/*.txt: line-protocol scripts (one or more cases each)"""
+    cases = []
+    for f in C.corpus_files(prop):
+        if not f.endswith(".txt"):
+            continue
+        cur = None
+        for l in open(f):
+            l = l.strip()
+            if not l or l.startswith("#"):
+                continue
+            if l.startswith("new "):
+                cur = Case(l.split()[1], [], [], tag="corpus/" + os.path.basename(f))
+                cases.append(cur)
+            elif cur is not None and l.startswith("faults "):
+                cur.faults += l.split()[1:]
+            elif cur is not None:
+                cur.ops.append(l)
+    return cases
+
+
+def shape(case):
+    return " ".join(o.split()[0] + (str(len([t for t in o.split()[1:] if not t.startswith("L=")])) if o.startswith("append") else "")
+                    for o in case.ops)
+
+
+def fill_cov(ctx, stats, cases, interesting, rule):
+    distinct = set()
+    for c, labels in zip(cases, stats["labels_of_case"]):
+        if labels & set(interesting):
+            distinct.add(C.sha("%s|%s|%s|%s" % (c.kind, " ".join(sorted(labels)), shape(c), " ".join(c.faults))))
+    ctx.cov["evaluations"] = stats["evaluations"]
+    ctx.cov["distinct_nontrivial"] = len(distinct)
+    ctx.cov["traces_validated_against_impl"] = stats["validated"]
+    ctx.cov["rule"] = rule
+    ctx.cov["model_branch_hits"] = dict(sorted(stats["branches"].items()))
+    ctx.cov["operations_compared"] = stats["ops"]
+    ss = []
+    for c in (cases[:1] + cases[len(cases) // 2:len(cases) // 2 + 1] + cases[-1:]):
+        ss.append({"kind": c.kind, "faults": c.faults, "ops": [o[:80] for o in c.ops[:12]], "tag": c.tag})
+    ctx.cov["samples"] = ss
+
+
+ASSUMPTIONS = [
+    "kernel modelled, not verified: open returns a descriptor that is not open (or fails), pwrite writes a prefix of the "
+    "buffer (possibly empty) or fails, close always releases the descriptor, flock/mkdir succeed or fail",
+    "access(path, W_OK) on an existing path succeeds (the harness creates writable files); the parent directory of every "
+    "URI exists and is writable",
+    "size_t / off_t overflow of offsets and lengths is not modelled",
+    "histories: no call after close, no `set` while the HAL state is Running (skipped identically by model and harness; "
+    "the HAL does not guard set — life-cycle discipline of the runtime is property C08's subject)",
+    "TIFF writers: only the I/O skeleton (which call, which descriptor, how many bytes, how the result steers control) is "
+    "modelled here; offsets and contents of TIFF structures belong to C15",
+    "the write-after-free of storage_close (C11) is masked in this harness by exempting that one function from ASan",
+]
